@@ -30,7 +30,7 @@ def main():
     assert rc == 0, out
     ok_tests = True
     for c in a.crates.split(','):
-        rc, out = sh('cargo test -p %s --offline --no-fail-fast 2>&1 | tail -400' % c)
+        rc, out = sh('cargo test -p %s --offline --no-fail-fast -- --skip pty_ 2>&1 | tail -400' % c)
         ft = [t for t in failed_tests(out) if not KNOWN_FAIL.search(t)]
         compiled = 'error: could not compile' not in out and 'error[E' not in out
         log['tests_with_patch:' + c] = dict(compiled=compiled, unexpected_failures=ft,
